@@ -28,14 +28,32 @@ static int run(const char* logpath, vh::Cases& cs, vh::Progress& pg, size_t star
   auto& L = vh::Ledger::get();
   if (track && std::string(logpath) != "-") L.log = fopen(logpath, start ? "a" : "w");
   std::unique_ptr<Doc> d[3];
+  // a free-standing deep copy of some document's tree in another allocator, and what it read as when it was made:
+  // whatever happens to its source afterwards, it must keep reading the same
+  MemoryPoolAllocator<> snap_alloc;
+  std::unique_ptr<DNode<MemoryPoolAllocator<>>> snap;
+  std::string snap_walk;
   bool alive[3] = {false, true, true};
   std::string cur;
   long pred_orph = 0;
   uint64_t n = 0, drift = 0;
   bool skip = false;
+  auto check_snap = [&](size_t i, const std::string& after) {
+    if (!snap) return true;
+    std::string prob, w = vh::Walk(*snap, prob);
+    if (w != snap_walk) {
+      vh::fail(i, "copy", "a deep copy made earlier reads differently after " + after + " on the documents: " + w.substr(0, 140) + " (was " + snap_walk.substr(0, 140) + ")");
+      snap.reset();
+      return false;
+    }
+    return true;
+  };
   auto end_behaviour = [&](size_t i) {
     d[1].reset();
     d[2].reset();
+    check_snap(i, "destruction");
+    snap.reset();
+    snap_alloc.Clear();
     if (track) {
       long left = (long)L.live.size();
       if (left != 0 && left <= pred_orph) {
@@ -81,6 +99,8 @@ static int run(const char* logpath, vh::Cases& cs, vh::Progress& pg, size_t star
       if (k == 0) d[a]->SetUint64(1);
       else { d[a]->SetArray(); d[a]->PushBack(typename Doc::NodeType(StringView("owned string"), d[a]->GetAllocator()), d[a]->GetAllocator()); }
     } else if (op == "recreate") { d[a].reset(new Doc()); }
+    else if (op == "copyout") { snap.reset(new DNode<MemoryPoolAllocator<>>(*d[a], snap_alloc)); std::string p0; snap_walk = vh::Walk(*snap, p0); }
+    else if (op == "dropcopy") { snap.reset(); }
     else { vh::fail(i, "harness", "unknown op"); skip = true; continue; }
     // every live, not moved-from document must be readable and self-consistent
     if (op == "move") { alive[a] = true; alive[b] = false; }
@@ -96,6 +116,7 @@ static int run(const char* logpath, vh::Cases& cs, vh::Progress& pg, size_t star
       std::string p2;
       if (chk.HasParseError() || vh::Walk(chk, p2) != w) { vh::fail(i, "corrupt", "document " + std::to_string(x) + " does not survive Dump/Parse after " + op + ": " + dump.substr(0, 100)); skip = true; }
     }
+    if (!check_snap(i, op)) skip = true;
     if (track) {
       if ((long)L.live.size() != atol(r[7].c_str())) drift++;
       if (!L.problems.empty()) { for (auto& p : L.problems) vh::fail(i, "ledger", p + " (after " + op + ")"); L.problems.clear(); skip = true; }
